@@ -90,14 +90,28 @@ def classify(group, res):
         if msg.startswith("aborting due to"):
             continue
         code = (d.get("code") or {}).get("code") if d.get("code") else None
-        spans = [s for s in d.get("spans", []) if s.get("file_name", "").endswith(gen_name)]
+        spans = []
+        for sp in d.get("spans", []):
+            # follow macro expansions back to the call site in the generated file
+            cur = sp
+            for _ in range(8):
+                if cur.get("file_name", "").endswith(gen_name):
+                    break
+                nxt = (cur.get("expansion") or {}).get("span")
+                if not nxt:
+                    break
+                cur = nxt
+            if cur.get("file_name", "").endswith(gen_name):
+                if cur is not sp:
+                    cur = dict(cur, is_primary=sp.get("is_primary"))
+                spans.append(cur)
         is_vc = any(k in msg for k in ("postcondition not satisfied", "precondition not satisfied",
                                        "assertion failed", "invariant not satisfied", "possible arithmetic",
                                        "possible division", "decreases not satisfied", "unreachable",
                                        "might not be allowed", "possible bit shift", "cannot show",
                                        "failed to show", "could not prove", "loop invariant", "may underflow",
                                        "recommendation not met", "termination", "might fail",
-                                       "index out of bounds", "constructed value may fail"))
+                                       "index out of bounds", "constructed value may fail", "unable to prove"))
         rl = ("Resource limit" in msg) or ("rlimit" in msg)
         if code or (not is_vc and not rl):
             hints = []
@@ -105,7 +119,12 @@ def classify(group, res):
                 ln = sp.get("line_start", 0)
                 if sp.get("is_primary") and 1 <= ln <= len(group.out.map) and group.out.map[ln - 1]["kind"] == "hint":
                     hints.append(group.out.map[ln - 1]["hint"])
-            tool.append({"msg": msg, "rendered": d.get("rendered", "")[:2000], "hints": hints})
+            unsize = None
+            if "unsizing operation from `&mut " in msg and "to `&mut dyn Storage`" in msg:
+                for sp in spans:
+                    if sp.get("is_primary") and sp.get("line_start") == sp.get("line_end"):
+                        unsize = (sp["line_start"], sp["column_start"], sp["column_end"])
+            tool.append({"msg": msg, "rendered": d.get("rendered", "")[:2000], "hints": hints, "unsize": unsize})
             continue
         hit_clauses, hit_src, hit_tmpl = [], [], []
         for s in spans:
@@ -172,6 +191,25 @@ def verify_group(gname, scratch, rlimit=30):
             return {"group": gname, "status": "undecided", "reason": str(e), "wall": time.time() - t0}
         res = run_verus(g.gen_path, rlimit=rlimit)
         fails, tool = classify(g, res)
+        # rule R3 applied where the verifier asks for it: `&mut T -> &mut dyn Storage` unsizing is not supported by
+        # Verus; the expression at the reported span is wrapped in the identity shim as_dyn_mut(..) and the run repeated
+        for _r3 in range(6):
+            uns = [t for t in tool if t.get("unsize")]
+            if not uns or len(uns) != len(tool):
+                break
+            text = g.gen_text
+            lines = text.split("\n")
+            edits = sorted(set((u["unsize"][0], u["unsize"][1], u["unsize"][2]) for u in uns), reverse=True)
+            for (ln, c0, c1) in edits:
+                L = lines[ln - 1]
+                expr = L[c0 - 1:c1 - 1]
+                lines[ln - 1] = L[:c0 - 1] + "as_dyn_mut(" + expr + ")" + L[c1 - 1:]
+                g.rewrites.append({"rule": "R3-auto", "item": g.out.map[ln - 1].get("fn", ""), "expr": expr})
+            g.gen_text = "\n".join(lines)
+            with open(g.gen_path, "w") as fh:
+                fh.write(g.gen_text)
+            res = run_verus(g.gen_path, rlimit=rlimit)
+            fails, tool = classify(g, res)
         # proof hints that no longer type-check on this tree are dropped and the rest is verified without them
         bad = set(h for t in tool for h in t.get("hints", []))
         if tool and bad and all(t.get("hints") for t in tool):
@@ -208,18 +246,17 @@ def cmd_dev(args):
     gname = args[0]
     keep = os.path.join(SCRATCH_ROOT, "vxdev")
     os.makedirs(keep, exist_ok=True)
-    try:
-        g = assemble(gname, keep)
-    except Undecided as e:
-        print("UNDECIDED:", e)
+    r = verify_group(gname, keep)
+    if "g" not in r:
+        print("UNDECIDED:", r.get("reason"))
         return 2
-    print("generated", g.gen_path, "lines", len(g.out.lines), "clauses", len(g.clauses), "fns", len(g.functions))
+    g, res, fails, tool = r["g"], r["res"], r["fails"], r["tool"]
+    print("generated", g.gen_path, "lines", len(g.out.lines), "clauses", len(g.clauses), "fns", len(g.functions), "status", r["status"], r["reason"])
     if g.lost:
         print("lost anchors:", g.lost)
-    rl = 30
-    extra = [a for a in args[1:]]
-    res = run_verus(g.gen_path, rlimit=rl, extra=extra)
-    fails, tool = classify(g, res)
+    auto = [x for x in g.rewrites if x.get("rule") == "R3-auto"]
+    if auto:
+        print("auto R3:", [(x["item"].split("::")[-1].strip(), x["expr"]) for x in auto])
     for t in tool:
         print("TOOL ERROR:", t["msg"])
         print(t["rendered"])
